@@ -8,6 +8,8 @@ package props
 import (
 	"encoding/json"
 	"fmt"
+	"os"
+	"path/filepath"
 	"sync"
 	"testing"
 	"time"
@@ -16,6 +18,8 @@ import (
 	"github.com/Trendyol/go-dcp/couchbase"
 	"github.com/Trendyol/go-dcp/helpers"
 	"github.com/Trendyol/go-dcp/membership"
+	"github.com/Trendyol/go-dcp/metadata"
+	"github.com/Trendyol/go-dcp/models"
 	"github.com/Trendyol/go-dcp/stream"
 	"github.com/Trendyol/go-dcp/tracing"
 	"github.com/asaskevich/EventBus"
@@ -377,6 +381,9 @@ type c09Follow struct {
 	N       int             `json:"n"`
 	Dynamic bool            `json:"dynamic"` // dynamic membership: the reopen is not delayed
 	Steps   []c09FollowStep `json:"steps"`
+	// File: metadata type file, and the checkpoint file holds an entry for EVERY vBucket of the bucket (written while this
+	// instance was the only member): what the member streams is its partition, not what its file happens to list
+	File bool `json:"file,omitempty"`
 }
 
 func c09ExecFollow(sc c09Follow) (string, map[string]bool) {
@@ -394,7 +401,27 @@ func c09ExecFollow(sc c09Follow) (string, map[string]bool) {
 	bus.Publish(helpers.MembershipChangedBusEventName, &membership.Model{MemberNumber: sc.Steps[0].M, TotalMembers: sc.Steps[0].T})
 	cl := newFakeClient(sc.N)
 	hand := &fakeHandler{}
-	st := stream.NewStream(cl, newFakeMeta(), cfgS, &couchbase.Version{Major: 7}, &couchbase.BucketInfo{BucketType: "membase"},
+	var md metadata.Metadata = newFakeMeta()
+	if sc.File {
+		dir := os.Getenv("VERIF_WORK")
+		if dir == "" {
+			dir = os.TempDir()
+		}
+		path := filepath.Join(dir, fmt.Sprintf("c09-%d-%d-%d.json", os.Getpid(), tick(), time.Now().UnixNano()))
+		defer os.Remove(path)
+		cfgS.Metadata.Type = "file"
+		cfgS.Metadata.Config = map[string]string{"fileName": path}
+		md = metadata.NewFSMetadata(cfgS)
+		all := map[uint16]*models.CheckpointDocument{}
+		for v := 0; v < sc.N; v++ {
+			all[uint16(v)] = c02DocOf(ckTuple{UUID: uint64(cl.failoverOf(uint16(v))[0].VbUUID)}, "u")
+		}
+		if err := md.Save(all, nil, "u"); err != nil {
+			return "HARNESS: cannot write the checkpoint file: " + err.Error(), labels
+		}
+		labels["file_lists_every_vbucket"] = true
+	}
+	st := stream.NewStream(cl, md, cfgS, &couchbase.Version{Major: 7}, &couchbase.BucketInfo{BucketType: "membase"},
 		disc, &fakeConsumer{}, map[uint32]string{}, make(chan struct{}, 1), hand, tracing.NewTracerComponent())
 	if ok, pv := within(20*time.Second, func() { st.Open() }); !ok || pv != nil {
 		return fmt.Sprintf("Open(): returned=%v panic=%v", ok, pv), labels
@@ -515,6 +542,7 @@ func c09GenFollow(rt *rapid.T) c09Follow {
 		}
 		sc.Steps = append(sc.Steps, s)
 	}
+	sc.File = rapid.IntRange(0, 3).Draw(rt, "file") == 0
 	return sc
 }
 
